@@ -620,3 +620,70 @@ Lemma int_literal_exact n : 0 <= n ->
   parse_literal TINT (print_dec n) = Some (n, 1)
   /\ parse_literal TINT ("-"%char :: print_dec n) = Some (- n, 1).
 Proof. intros H. split; [now apply parse_print_dec|now apply parse_neg_print_dec]. Qed.
+
+(* ------------------------------------------------------------------ *)
+(** * Non-vacuity: a small hand-written table that passes, so that the hypotheses of the
+      specification theorems are satisfiable, also with a wrapper and a variadic method *)
+
+Definition ex_truth : tpkg :=
+  TP (s "fmt") (s "fmt")
+     [T 1 (s "Println") KFunc 0 ANone;
+      T 2 (s "Logger") (KIface [TM (s "Logf") 0 [s "string"; s "...any"] [];
+                                TM (s "String") 0 [] [s "string"]]) 0 ANone;
+      T 3 (s "Version") (KUInt 7) 0 ANone;
+      T 4 (s "Half") (KUFloat 1 2) 0 ANone;
+      T 5 (s "Out") KVar 0 ANone;
+      T 6 (s "Later") KFunc 99 ANone].
+
+Definition ex_wrapper : wrapper :=
+  W 1 (s "_fmt_Logger")
+    [(s "IValue", FTOther (s "interface{}"));
+     (s "WLogf", FTFunc [P (s "format") (s "string"); P (s "a") (s "...any")] []);
+     (s "WString", FTFunc [] [P (s "") (s "string")])]
+    [WM (s "Logf") (s "W") [P (s "format") (s "string"); P (s "a") (s "...any")] []
+        (BForward false (s "W") (s "WLogf") [(s "format", false); (s "a", true)] false);
+     WM (s "String") (s "W") [] [P (s "") (s "string")]
+        (BForward true (s "W") (s "WString") [] true)].
+
+Definition ex_group : group :=
+  G (s "example") 22 true
+    [F (s "stdlib/example.go") [(s "", s "fmt"); (s "", s "reflect")] []
+       [R 1 (s "fmt/fmt") (s "Println") (FSel (s "fmt") (s "Println"));
+        R 2 (s "fmt/fmt") (s "Logger") (FTypeSel (s "fmt") (s "Logger"));
+        R 3 (s "fmt/fmt") (s "_Logger") (FTypeIdent (s "_fmt_Logger"));
+        R 4 (s "fmt/fmt") (s "Version") (FLit TINT (s "7"));
+        R 5 (s "fmt/fmt") (s "Half") (FLit TFLOAT (s "0.5"));
+        R 6 (s "fmt/fmt") (s "Out") (FAddrSel (s "fmt") (s "Out"))]
+       [ex_wrapper]]
+    [ex_truth].
+
+Lemma ex_group_checks :
+  check_group ex_group = true /\ g_complete ex_group = true
+  /\ rows_ok const_g ex_group = true
+  /\ (exists t, In t (tp_objs ex_truth) /\ expected (g_release ex_group) t = true)
+  /\ (exists m, In m (w_methods ex_wrapper) /\ existsb is_variadic (wm_params m) = true).
+Proof.
+  repeat split; try (vm_compute; reflexivity).
+  - exists (T 1 (s "Println") KFunc 0 ANone). split; [now left|reflexivity].
+  - eexists. split; [left; reflexivity|reflexivity].
+Qed.
+
+(** mis-bindings of the kinds the property is about are rejected by the decision procedure *)
+Lemma ex_mutants_rejected :
+  let f := hd (F [] [] [] [] []) (g_files ex_group) in
+  (* another function of the same package *)
+  row_ok const_g ex_group f (R 1 (s "fmt/fmt") (s "Println") (FSel (s "fmt") (s "Print"))) = false
+  (* a variable bound by value *)
+  /\ row_ok const_g ex_group f (R 6 (s "fmt/fmt") (s "Out") (FSel (s "fmt") (s "Out"))) = false
+  (* a literal off by one *)
+  /\ row_ok const_g ex_group f (R 4 (s "fmt/fmt") (s "Version") (FLit TINT (s "8"))) = false
+  (* an object of a later release *)
+  /\ row_ok const_g ex_group f (R 7 (s "fmt/fmt") (s "Later") (FSel (s "fmt") (s "Later"))) = false
+  (* a missing row *)
+  /\ complete (G (s "example") 22 true
+                 [F (s "stdlib/example.go") [(s "", s "fmt")] [] (tl (f_rows f)) [ex_wrapper]] [ex_truth]) = false
+  (* a wrapper method forwarding to another field of the same signature *)
+  /\ wrapper_ok (W 1 (s "_x") [(s "IValue", FTOther (s "interface{}")); (s "WA", FTFunc [] []); (s "WB", FTFunc [] [])]
+                   [WM (s "A") (s "W") [] [] (BForward false (s "W") (s "WB") [] false);
+                    WM (s "B") (s "W") [] [] (BForward false (s "W") (s "WB") [] false)]) = false.
+Proof. repeat split; vm_compute; reflexivity. Qed.
